@@ -1,3 +1,268 @@
+//! C06 — invalid use yields a truthful Error, valid use succeeds, nothing panics.
+//! Breadth-first exploration of call histories on the real codec objects; every observation is
+//! compared with the set of acceptable outcomes of the reference API model; states are merged
+//! only when the model state AND the digest of the concrete object state coincide.
+use std::collections::{BTreeMap, HashSet};
+
+use crate::api::*;
+use crate::core::*;
+use crate::json::J;
+use crate::kv::*;
 use crate::report::*;
-pub fn run(_ctx: &Ctx, rep: &mut Report) { rep.machinery_errors.push("not implemented".into()); }
-pub fn replay(_ctx: &Ctx, _case: &str) -> Result<(), String> { Err("not implemented".into()) }
+
+pub const VALID_CFGS: [(usize, usize, usize); 4] = [(1, 1, 2), (2, 1, 64), (3, 2, 66), (2, 3, 64)];
+
+pub fn invalid_cfgs() -> Vec<(usize, usize, usize)> {
+    vec![
+        (0, 1, 64),
+        (1, 0, 64),
+        (0, 0, 0),
+        (65536, 1, 64),
+        (1, 65536, 64),
+        (32769, 32769, 64),
+        (61441, 4096, 64),
+        (4096, 61441, 64),
+        (usize::MAX, usize::MAX, 64),
+        (1 << 32, 1, 2),
+        (2, 3, 0),
+        (2, 3, 63),
+        (2, 3, 1),
+        (2, 3, usize::MAX),
+        (0, 1, 0),
+        (usize::MAX, 1, 3),
+    ]
+}
+
+/// operation alphabet in a given model state (simplest first)
+pub fn enabled_ops(s: &Spec, with_recycle: bool) -> Vec<Op> {
+    let mut v = Vec::new();
+    let b = s.b;
+    if !s.decoder {
+        v.push(Op::Add(b));
+        v.push(Op::Encode);
+        for len in [0usize, 1, b + 2, b.saturating_sub(2), 2 * b] {
+            if len != b && !v.contains(&Op::Add(len)) {
+                v.push(Op::Add(len));
+            }
+        }
+    } else {
+        let hi = spec_is_high(s.kind, s.k, s.r);
+        let obase = if hi { pow2ceil(s.r) } else { 0 };
+        let rbase = if hi { 0 } else { pow2ceil(s.k) };
+        let mut oi = vec![0usize, 1, s.k - 1, s.k, s.k + 1, usize::MAX - obase, (usize::MAX - obase).wrapping_add(1), usize::MAX];
+        let mut ri = vec![0usize, 1, s.r - 1, s.r, s.r + 1, usize::MAX - rbase, (usize::MAX - rbase).wrapping_add(1), usize::MAX];
+        oi.dedup();
+        ri.dedup();
+        let mut seen = HashSet::new();
+        for i in oi {
+            if seen.insert(i) {
+                v.push(Op::AddO(i, b));
+            }
+        }
+        let mut seen = HashSet::new();
+        for j in ri {
+            if seen.insert(j) {
+                v.push(Op::AddR(j, b));
+            }
+        }
+        v.push(Op::Decode);
+        // several violations at once
+        v.push(Op::AddO(0, b + 2));
+        v.push(Op::AddO(s.k, 0));
+        v.push(Op::AddO(usize::MAX, 1));
+        v.push(Op::AddR(0, 0));
+        v.push(Op::AddR(s.r, b + 2));
+        v.push(Op::AddR(usize::MAX, b - 1));
+    }
+    for (k, r, bb) in VALID_CFGS {
+        v.push(Op::Reset(k, r, bb));
+    }
+    for (k, r, bb) in invalid_cfgs() {
+        v.push(Op::Reset(k, r, bb));
+    }
+    if with_recycle && s.kind != Kind::Rs {
+        for kind in [Kind::High, Kind::Low, Kind::Def] {
+            for (k, r, bb) in [(2usize, 1usize, 64usize), (2, 3, 64)] {
+                v.push(Op::Recycle(kind, k, r, bb));
+            }
+        }
+    }
+    v
+}
+
+pub struct Start {
+    pub eng: &'static str,
+    pub decoder: bool,
+    pub kind: Kind,
+    pub cfg: (usize, usize, usize),
+    pub soil: u64,
+}
+
+impl Start {
+    pub fn kv(&self, ops: &[Op], seed: u64) -> Kv {
+        Kv::new()
+            .with("eng", self.eng)
+            .with("dir", if self.decoder { "dec" } else { "enc" })
+            .with("kind", self.kind.name())
+            .with("k", self.cfg.0)
+            .with("r", self.cfg.1)
+            .with("b", self.cfg.2)
+            .with("soil", self.soil)
+            .with("seed", seed)
+            .with("ops", dump_ops(ops))
+    }
+}
+
+pub fn starts(thorough: bool, soil: u64) -> Vec<Start> {
+    let mut v = Vec::new();
+    for decoder in [false, true] {
+        for kind in [Kind::Rs, Kind::Def, Kind::High, Kind::Low] {
+            for cfg in VALID_CFGS {
+                if !thorough && cfg == (1, 1, 2) {
+                    continue;
+                }
+                let eng = if kind == Kind::Rs { "default" } else { "nosimd" };
+                v.push(Start { eng, decoder, kind, cfg, soil });
+                if thorough {
+                    v.push(Start { eng, decoder, kind, cfg, soil: 0 });
+                }
+            }
+        }
+    }
+    v
+}
+
+fn soil_opt(s: u64) -> Option<u64> {
+    if s == 0 {
+        None
+    } else {
+        Some(s)
+    }
+}
+
+pub fn replay(_ctx: &Ctx, case: &str) -> Result<(), String> {
+    let kv = Kv::parse(case)?;
+    if kv.opt("static").is_some() {
+        return crate::c08::check_agree(Kind::parse(kv.str("kind")), kv.usize("k"), kv.usize("r"), kv.usize("bytes")).map(|_| ()).map_err(|(e, o)| format!("expected {e}; observed {o}"));
+    }
+    let refm = RefModel::new();
+    let m = Model { refm: &refm, seed: kv.u64("seed") };
+    let ops = parse_ops(kv.str("ops"));
+    let run = run_history(&m, kv.str("eng"), kv.str("dir") == "dec", Kind::parse(kv.str("kind")), kv.usize("k"), kv.usize("r"), kv.usize("b"), soil_opt(kv.u64("soil")), &ops);
+    match run.first_bad {
+        None => Ok(()),
+        Some((i, exp)) => Err(format!("call #{i} {}: expected {exp}; observed {}", ops[i].dump(), run.obs[i].short())),
+    }
+}
+
+pub fn run(ctx: &Ctx, rep: &mut Report) {
+    let refm = RefModel::new();
+    let m = Model { refm: &refm, seed: ctx.seed };
+    let depth = if ctx.thorough() { 5 } else { 3 };
+    rep.rule = "state = (reference-model state, digest of the concrete object); transition = one public call (add/encode/decode/reset/recycle) with arguments from an alphabet containing 0, off-by-one, usize::MAX and wrap-around indexes, wrong lengths and several violations at once; every observation must be Ok with the reference bytes, or an Err naming a really violated precondition; non-trivial = transitions whose call violates at least one precondition or completes a round (encode/decode returning bytes); distinct by (start, history)".into();
+    rep.assume("shard sizes whose working space cannot be allocated are not exercised (outside the property)");
+    rep.assume("state merging: two histories are merged only if model state and verif_digest (configuration, counters, bitmap, every byte of working memory) coincide");
+    rep.bound("depth", J::i(depth));
+    let sts = starts(ctx.thorough(), ctx.seed | 1);
+    rep.bound("starts", J::s(format!("{} = {{enc,dec}} x {{rs,def,high,low}} x cfgs {:?}{}", sts.len(), VALID_CFGS, if ctx.thorough() { " x {soiled, fresh}" } else { " (soiled; (1,1,2) thorough only)" })));
+
+    let mut obs_kinds: BTreeMap<String, u64> = BTreeMap::new();
+    for st in &sts {
+        // BFS
+        let mut seen: HashSet<(Spec, Option<u64>)> = HashSet::new();
+        let init = run_history(&m, st.eng, st.decoder, st.kind, st.cfg.0, st.cfg.1, st.cfg.2, soil_opt(st.soil), &[]);
+        seen.insert((init.spec.clone(), init.digest));
+        let mut frontier: Vec<(Vec<Op>, Spec)> = vec![(vec![], init.spec.clone())];
+        rep.states += 1;
+        for _level in 0..depth {
+            // expand all (node, op) pairs in parallel
+            let mut work: Vec<(usize, Op)> = Vec::new();
+            for (ni, (_, spec)) in frontier.iter().enumerate() {
+                for op in enabled_ops(spec, true) {
+                    work.push((ni, op));
+                }
+            }
+            let results: Vec<(Run, Vec<Op>)> = par_for(work.len(), 16, |wi| {
+                let (ni, op) = &work[wi];
+                let mut ops = frontier[*ni].0.clone();
+                ops.push(op.clone());
+                let run = run_history(&m, st.eng, st.decoder, st.kind, st.cfg.0, st.cfg.1, st.cfg.2, soil_opt(st.soil), &ops);
+                (run, ops)
+            });
+            let mut next: Vec<(Vec<Op>, Spec)> = Vec::new();
+            for (run, ops) in results {
+                rep.transitions += 1;
+                rep.evaluations += 1;
+                let last = run.obs.last().unwrap();
+                let tag = match last {
+                    Obs::Ok => "Ok".to_string(),
+                    Obs::Recovery(_) => "Ok(recovery)".to_string(),
+                    Obs::Restored(_) => "Ok(restored)".to_string(),
+                    Obs::Err(e) => format!("Err({})", format!("{e:?}").split([' ', '{']).next().unwrap_or("")),
+                    Obs::Panic(_) => "Panic".to_string(),
+                    Obs::Dead => "Dead".to_string(),
+                };
+                *obs_kinds.entry(format!("{}:{}", ops.last().unwrap().dump().split(':').next().unwrap(), tag)).or_default() += 1;
+                if !matches!(last, Obs::Ok) {
+                    rep.distinct += 1;
+                }
+                if let Some((i, exp)) = &run.first_bad {
+                    rep.violation(Violation {
+                        key: format!("{}-{}-{}-{}_{}_{}-{}", if st.decoder { "dec" } else { "enc" }, st.kind.name(), st.eng, st.cfg.0, st.cfg.1, st.cfg.2, dump_ops(&ops)),
+                        case: st.kv(&ops, ctx.seed).dump(),
+                        expected: format!("call #{i} {} -> {exp}", ops[*i].dump()),
+                        observed: run.obs[*i].short(),
+                    });
+                    continue;
+                }
+                rep.traces += 1;
+                if run.digest.is_none() {
+                    continue; // object consumed by a (correctly) failing new(): leaf
+                }
+                if seen.insert((run.spec.clone(), run.digest)) {
+                    rep.states += 1;
+                    next.push((ops, run.spec));
+                }
+            }
+            frontier = next;
+        }
+        if rep.samples.len() < 4 {
+            if let Some((ops, _)) = frontier.last() {
+                rep.sample(st.kv(ops, ctx.seed).dump());
+            }
+        }
+    }
+    let mut ok = J::obj();
+    for (k, v) in &obs_kinds {
+        ok.set(k, J::i(*v));
+    }
+    rep.extra("observations_by_call_and_outcome", ok);
+
+    // static argument sweep: validate/new/reset over the count x size alphabet
+    let counts = [0usize, 1, 2, 3, 5, 32768, 32769, 61440, 61441, 65535, 65536, 65537, 1 << 32, usize::MAX];
+    let sizes = [0usize, 1, 2, 3, 64, 65, 66, usize::MAX, usize::MAX - 1];
+    let mut sweep = Vec::new();
+    for kind in [Kind::Rs, Kind::Def, Kind::High, Kind::Low] {
+        for &k in &counts {
+            for &r in &counts {
+                for &b in &sizes {
+                    sweep.push(Kv::new().with("what", "agree").with("kind", kind.name()).with("k", fmt_usize(k)).with("r", fmt_usize(r)).with("bytes", fmt_usize(b)));
+                }
+            }
+        }
+    }
+    let res: Vec<Result<u64, (String, String)>> = par_for(sweep.len(), 8, |i| {
+        let kv = &sweep[i];
+        crate::c08::check_agree(Kind::parse(kv.str("kind")), kv.usize("k"), kv.usize("r"), kv.usize("bytes"))
+    });
+    let mut n_sweep = 0u64;
+    for (kv, r) in sweep.iter().zip(res) {
+        match r {
+            Ok(n) => n_sweep += n,
+            Err((e, o)) => rep.violation(Violation { key: format!("static-{}-{}-{}-{}", kv.str("kind"), kv.str("k"), kv.str("r"), kv.str("bytes")), case: format!("static=1 {}", kv.dump()), expected: e, observed: o }),
+        }
+    }
+    rep.evaluations += n_sweep;
+    rep.extra("static_calls_compared", J::i(n_sweep));
+    rep.bound("static_sweep", J::s(format!("validate (and new/reset where the configuration is small) for counts {:?} squared x sizes {:?} x 4 kinds", counts.iter().map(|x| fmt_usize(*x)).collect::<Vec<_>>(), sizes.iter().map(|x| fmt_usize(*x)).collect::<Vec<_>>())));
+}
